@@ -22,19 +22,142 @@ package rdb
 //@ spec chunks(d slice, n int, off seq, idx seq) bool = n >= 0 && off[0] == 0 && off[n] == len(d) && forall(k, 0, n, off[k] + 4 <= off[k+1] && off[k+1] == off[k] + 4 + le32(d, off[k])) && forall(k, 0, n+1, idx[off[k]] == k) && forall(a, 0, n+1, forall(b, a, n+1, off[a] <= off[b]))
 //@ spec chunkEq(d slice, off seq, k int, v slice) bool = off[k+1] - off[k] - 4 == len(v) && forall(j, 0, len(v), d[off[k]+4+j] == v[j])
 
+// delValue: safe on arbitrary bytes; on success exactly 4+len(value) bytes are removed in place; on
+// failure nothing is written. Under chunks(data, n, off, idx) (well-formed multi-value, ghost offsets) the
+// removed chunk is the FIRST chunk equal to value and ErrNXVal means no chunk equals value.
 //@ func delValue
-//@ ghost n int, off seq, idx seq
+//@ ghost n int, offs seq, idx seq
 //@ ghostret k int = idx[i]
-//@ requires chunks(data, n, off, idx)
 //@ requires ref(value) != ref(data)
 //@ modifies data[0:len(data)]
-//@ ensures[errkind] err == nil || err == ErrNXVal
-//@ ensures[nxval] err == ErrNXVal <==> forall(j, 0, n, !old(chunkEq(data, off, j, value)))
-//@ ensures[found] err == nil ==> 0 <= k && k < n && old(chunkEq(data, off, k, value)) && forall(j, 0, k, !old(chunkEq(data, off, j, value)))
-//@ ensures[shape] err == nil ==> len(result) == len(data) - (off[k+1]-off[k]) && ref(result) == ref(data) && off(result) == off(data)
-//@ ensures[prefix] err == nil ==> forall(q, 0, off[k], result[q] == old(data[q]))
-//@ ensures[suffix] err == nil ==> forall(q, off[k], len(result), result[q] == old(data[q + off[k+1] - off[k]]))
+//@ ensures[shape] err == nil ==> ref(result) == ref(data) && off(result) == off(data) && len(result) == len(data) - 4 - len(value)
 //@ ensures[noeffect] err != nil ==> result == nil && forall(q, 0, len(data), data[q] == old(data[q]))
-//@ loop 0 invariant[pos] 0 <= idx[i] && idx[i] <= n && off[idx[i]] == i && forall(j, 0, idx[i], !chunkEq(data, off, j, value))
-//@ loop 0 invariant[same] l == len(data) && forall(q, 0, len(data), data[q] == old(data[q]))
+//@ ensures[errkind] old(chunks(data, n, offs, idx)) ==> err == nil || err == ErrNXVal
+//@ ensures[nxval] old(chunks(data, n, offs, idx)) ==> (err == ErrNXVal <==> forall(j, 0, n, !old(chunkEq(data, offs, j, value))))
+//@ ensures[found] old(chunks(data, n, offs, idx)) && err == nil ==> 0 <= k && k < n && old(chunkEq(data, offs, k, value)) && forall(j, 0, k, !old(chunkEq(data, offs, j, value)))
+//@ ensures[prefix] old(chunks(data, n, offs, idx)) && err == nil ==> forall(q, 0, offs[k], result[q] == old(data[q]))
+//@ ensures[suffix] old(chunks(data, n, offs, idx)) && err == nil ==> forall(q, offs[k], len(result), result[q] == old(data[q + offs[k+1] - offs[k]]))
+//@ loop 0 invariant[pos] old(chunks(data, n, offs, idx)) ==> 0 <= idx[i] && idx[i] <= n && offs[idx[i]] == i && forall(j, 0, idx[i], !chunkEq(data, offs, j, value))
+//@ loop 0 invariant[same] l == len(data) && 0 <= i && forall(q, 0, len(data), data[q] == old(data[q]))
 //@ loop 0 decreases l - i
+
+//@ pred extends(d []byte, d0 []byte) = len(d0) <= len(d) && forall(q, 0, len(d0), d[q] == d0[q])
+//@ pred avMono(p seq, n int) = forall(a, 0, n+1, forall(b, a, n+1, p[a] <= p[b]))
+//@ pred avSameVals(vals [][]byte) = forall(k, 0, len(vals), forall(j, 0, len(vals[k]), vals[k][j] == old(vals[k][j])))
+//@ pred avPrefix(d []byte, d0 []byte) = forall(q, 0, len(d0), d[q] == old(d0[q]))
+
+// appendValues: length, buffer identity, prefix preservation, frame and argument preservation are proved;
+// the content of the appended chunks (LE32 length + bytes) is covered by the bounded stand-in C15/appendValues-content.
+//@ func appendValues
+//@ reveal avMono
+//@ ghost p seq
+//@ requires p[0] == len(data) && forall(k, 0, len(newVals), p[k+1] == p[k] + 4 + len(newVals[k]) && len(newVals[k]) < 4294967296)
+//@ requires avMono(p, len(newVals))
+//@ requires forall(k, 0, len(newVals), ref(data) == 0 || ref(newVals[k]) != ref(data))
+//@ modifies data[len(data):cap(data)]
+//@ ensures[len] len(result) == p[len(newVals)]
+//@ ensures[prefix] avPrefix(result, data)
+//@ ensures[vals] avSameVals(newVals)
+//@ ensures[buf] (ref(result) == ref(data) && off(result) == off(data)) || fresh(result)
+//@ loop 0 invariant[len] 0 <= idx && idx <= len(newVals) && len(data) == p[idx]
+//@ loop 0 invariant[notb] ref(data) != addr(b)
+//@ loop 0 invariant[buf] (ref(data) == ref(old(data)) && off(data) == off(old(data)) && cap(data) == cap(old(data))) || fresh(data)
+//@ loop 0 invariant[prefix] avPrefix(data, old(data))
+//@ loop 0 invariant[vals] avSameVals(newVals)
+//@ after append#0 assert[len] len(data) == p[idx] + 4 && len(v) == len(newVals[idx]) && v == newVals[idx]
+//@ after append#0 assert[notb] ref(data) != addr(b)
+//@ after append#0 assert[buf] (ref(data) == ref(old(data)) && off(data) == off(old(data)) && cap(data) == cap(old(data))) || fresh(data)
+//@ after append#0 assert[prefix] avPrefix(data, old(data))
+//@ after append#0 assert[vals] avSameVals(newVals)
+
+// ---- the RocksDB handle behind rdb.DBI: assumed contracts (cgo, not verified) -------------------------
+// Ghost trace of what was asked of the store: number of mutating calls, the last one, the last Get.
+//@ ghostvar dbWrites int
+//@ ghostvar dbLastOp int
+//@ ghostvar dbLastKey slice
+//@ ghostvar dbLastVal slice
+//@ ghostvar dbLastGet slice
+//@ ghostvar dbLastGetErr int
+
+//@ func DBI.Get
+//@ trusted
+//@ ensures err != ErrNXKey && err != ErrNXVal && err != io.ErrUnexpectedEOF
+//@ updates dbLastGet, dbLastGetErr
+//@ ensures dbLastGet == result0 && dbLastGetErr == err
+//@ ensures err != nil ==> result0 == nil
+//@ ensures result0 == nil || fresh(result0)
+
+//@ func DBI.Put
+//@ trusted
+//@ ensures err != ErrNXKey && err != ErrNXVal && err != io.ErrUnexpectedEOF
+//@ updates dbWrites, dbLastOp, dbLastKey, dbLastVal
+//@ ensures dbWrites == old(dbWrites) + 1 && dbLastOp == 1 && dbLastKey == key && dbLastVal == value
+
+//@ func DBI.Delete
+//@ trusted
+//@ ensures err != ErrNXKey && err != ErrNXVal && err != io.ErrUnexpectedEOF
+//@ updates dbWrites, dbLastOp, dbLastKey
+//@ ensures dbWrites == old(dbWrites) + 1 && dbLastOp == 2 && dbLastKey == key
+
+// ---- Add / Del: one read, then at most one write, and none at all on failure -------------------------
+//@ func RDB.Add
+//@ updates dbWrites, dbLastOp, dbLastKey, dbLastVal, dbLastGet, dbLastGetErr
+//@ requires recv.writeMutex != nil && recv.db != nil
+//@ requires len(value) < 4294967296
+//@ ensures[geterr] dbLastGetErr != nil ==> err == dbLastGetErr && dbWrites == old(dbWrites)
+//@ ensures[onewrite] dbLastGetErr == nil ==> dbWrites == old(dbWrites) + 1 && dbLastOp == 1 && dbLastKey == key
+//@ ensures[len] dbLastGetErr == nil ==> len(dbLastVal) == len(dbLastGet) + 4 + len(value)
+//@ call appendValues#0 ghost p = upd(upd(p0, 0, len(oldData)), 1, len(oldData) + 4 + len(value))
+//@ ghost p0 seq
+//@ reveal avMono
+
+//@ func RDB.Del
+//@ updates dbWrites, dbLastOp, dbLastKey, dbLastVal, dbLastGet, dbLastGetErr
+//@ requires recv.writeMutex != nil && recv.db != nil
+//@ ensures[geterr] dbLastGetErr != nil ==> err == dbLastGetErr && dbWrites == old(dbWrites)
+//@ ensures[nxkey] dbLastGetErr == nil && dbLastGet == nil ==> err == ErrNXKey
+//@ ensures[noeffect] err == ErrNXKey || err == ErrNXVal || err == io.ErrUnexpectedEOF ==> dbWrites == old(dbWrites)
+//@ ensures[atmostone] dbWrites == old(dbWrites) || dbWrites == old(dbWrites) + 1
+//@ ensures[wkey] dbWrites == old(dbWrites) + 1 ==> dbLastKey == key && len(dbLastGet) >= 4 + len(value)
+//@ ensures[wdel] dbWrites == old(dbWrites) + 1 ==> (dbLastOp == 2 <==> len(dbLastGet) == 4 + len(value))
+//@ ensures[wput] dbWrites == old(dbWrites) + 1 && dbLastOp == 1 ==> len(dbLastVal) == len(dbLastGet) - 4 - len(value) && ref(dbLastVal) == ref(dbLastGet)
+
+// ---- reads ---------------------------------------------------------------------------------------------
+//@ func DBI.GetMulti
+//@ trusted
+//@ ensures len(result0) == len(keys) && len(result1) == len(keys)
+//@ ensures fresh(result0) && fresh(result1)
+
+//@ func RDB.FindFirst
+//@ requires recv.db != nil
+//@ ensures[idx] err == nil && result1 >= 0 ==> result1 < len(keys) && len(result0) + 4 <= 4294967296 + 4
+//@ ensures[none] err != nil ==> result1 == -1 && result0 == nil
+//@ ensures[range] result1 >= -1 && result1 < len(keys) + 0 || len(keys) == 0
+
+// ---- batches -------------------------------------------------------------------------------------------
+//@ func Batch.IsEmpty
+//@ pure
+//@ ensures result == (len(recv.addedPairs) + len(recv.deletedPairs) == 0)
+
+//@ func Batch.Add
+//@ modifies recv
+//@ modifies recv.addedPairs[len(recv.addedPairs):cap(recv.addedPairs)]
+//@ ensures[len] len(recv.addedPairs) == old(len(recv.addedPairs)) + 1 && len(recv.deletedPairs) == old(len(recv.deletedPairs)) && !recv.sorted
+//@ ensures[lastkey] recv.addedPairs[len(recv.addedPairs)-1].key != nil && len(recv.addedPairs[len(recv.addedPairs)-1].key) == len(key)
+//@ ensures[lastval] len(recv.addedPairs[len(recv.addedPairs)-1].values) == 1 && len(recv.addedPairs[len(recv.addedPairs)-1].values[0]) == len(value)
+//@ ensures[keyeq] seqeq(recv.addedPairs[len(recv.addedPairs)-1].key, key)
+//@ ensures[valeq] seqeq(recv.addedPairs[len(recv.addedPairs)-1].values[0], value)
+//@ ensures[copy] fresh(recv.addedPairs[len(recv.addedPairs)-1].key) && fresh(recv.addedPairs[len(recv.addedPairs)-1].values[0])
+
+//@ func Batch.Del
+//@ modifies recv
+//@ modifies recv.deletedPairs[len(recv.deletedPairs):cap(recv.deletedPairs)]
+//@ ensures[len] len(recv.deletedPairs) == old(len(recv.deletedPairs)) + 1 && len(recv.addedPairs) == old(len(recv.addedPairs)) && !recv.sorted
+//@ ensures[lastkey] recv.deletedPairs[len(recv.deletedPairs)-1].key != nil && len(recv.deletedPairs[len(recv.deletedPairs)-1].key) == len(key)
+//@ ensures[lastval] len(recv.deletedPairs[len(recv.deletedPairs)-1].values) == 1 && len(recv.deletedPairs[len(recv.deletedPairs)-1].values[0]) == len(value)
+//@ ensures[keyeq] seqeq(recv.deletedPairs[len(recv.deletedPairs)-1].key, key)
+//@ ensures[valeq] seqeq(recv.deletedPairs[len(recv.deletedPairs)-1].values[0], value)
+//@ ensures[copy] fresh(recv.deletedPairs[len(recv.deletedPairs)-1].key) && fresh(recv.deletedPairs[len(recv.deletedPairs)-1].values[0])
+
+//@ func RDB.CreateBatch
+//@ ensures result != nil && fresh(result) && len(result.addedPairs) == 0 && len(result.deletedPairs) == 0 && result.sorted
